@@ -142,9 +142,9 @@ Section Denot.
   Definition Rdsat_can (m : ms) (w : wit) : Prop := exists v, Rcan m false w v.
 
   (* ---------- the assets a witness exhibits ---------- *)
-  Definition nonnil (b : bytes) : bool := match b with [] => false | _ => true end.
+  Definition dn_nonnil (b : bytes) : bool := match b with [] => false | _ => true end.
   Definition wfind_sig (W : wit) (k : key) : option bytes :=
-    find (fun sg => nonnil sg && e_sigok e (kb ke k) sg) W.
+    find (fun sg => dn_nonnil sg && e_sigok e (kb ke k) sg) W.
   Definition wfind_pre (hf : bytes -> bytes) (W : wit) (h : bytes) : option bytes :=
     find (fun x => N.eqb (blen x) 32 && bytes_eqb (hf x) h) W.
   Definition assets_of (W : wit) : assets :=
